@@ -337,6 +337,36 @@ def inline_namedtuples(tree, modname, ref):
             locs |= set(names.values())
             n += 1
 
+    # attrgetter("size") in a function that builds such tuples, the field
+    # belonging to that class alone: `lambda t: t[0]`
+    for func in [x for x in ast.walk(tree) if isinstance(x, FUNC)]:
+        built = {x.func.id for x in ast.walk(func) if isinstance(
+            x, ast.Call) and isinstance(x.func, ast.Name)
+            and x.func.id in classes}
+        if not built:
+            continue
+        for x in ast.walk(func):
+            if isinstance(x, ast.Call) and ast.unparse(x.func).split(
+                    ".")[-1] == "attrgetter" and len(x.args) == 1 and \
+                    not x.keywords and isinstance(
+                        x.args[0], ast.Constant) and isinstance(
+                            x.args[0].value, str):
+                owners = [c for c in classes if x.args[0].value
+                          in classes[c]]
+                if len(owners) == 1 and owners[0] in built:
+                    idx = classes[owners[0]].index(x.args[0].value)
+                    lam = ast.parse(f"lambda t: t[{idx}]",
+                                    mode="eval").body
+                    for y in ast.walk(func):
+                        for fld, val in ast.iter_fields(y):
+                            if val is x:
+                                setattr(y, fld, ast.copy_location(lam, x))
+                            elif isinstance(val, list):
+                                for i, v in enumerate(val):
+                                    if v is x:
+                                        val[i] = ast.copy_location(lam, x)
+                    n += 1
+
     class T(ast.NodeTransformer):
         def visit_Call(self, node):
             nonlocal n
